@@ -39,7 +39,7 @@ CLUSTERS = {
                          "OptInt", "UIntNone", "PipeIntNone"], "recipes": ["plain"], "w": 1},
 }
 CONV_CLUSTER = ["Outer", "OuterSame", "Inner", "ListInner", "OptInner", "DictInner", "InnerTags", "M1M2", "InnerSame", "CLink",
-                "CLink", "M1Str", "CTags", "Ann"]
+                "CLink", "M1Str", "CTags", "Ann", "ImplExtra", "ImplTags"]
 CONV_RCP = {"CLink": ["link_b_c", "link_a_c"], "M1Str": ["coerce_int_str", "coerce_int_hash"], "CTags": ["const_factory"]}
 
 
